@@ -63,7 +63,13 @@ func Bidi() xmpp.StreamFeature {
 			if err != nil {
 				return 0, nil, err
 			}
-			return 0, nil, w.EncodeToken(start.End())
+			err = w.EncodeToken(start.End())
+			if err != nil {
+				return 0, nil, err
+			}
+			// The deferred Close drops its error: flush here so that a failed
+			// write is reported.
+			return 0, nil, w.Flush()
 		},
 	}
 }
